@@ -191,13 +191,13 @@ theorem stack_len (gs : List (Graph κ (List α))) (G : Graph κ (List (List α)
     have := hv g0 (by simp)
     cases hvk : g0.vkeys with
     | nil => exact absurd hvk this
-    | cons a l => simp [lenStacked, hvk, glen_batched, glen_then, stackV, stackLeaf_length]
+    | cons a l => simp [lenStacked, glen_batched, glen_then, stackV, stackLeaf_length]
 
 /-- `len` of a single-episode graph is 1 -/
 theorem len_single (g : Graph κ (List α)) (hv : g.vkeys ≠ []) : lenSingle g = some 1 := by
   cases hvk : g.vkeys with
   | nil => exact absurd hvk hv
-  | cons a l => simp [lenSingle, glen_batched, glen_else]
+  | cons a l => simp [lenSingle, hvk, glen_batched, glen_else]
 
 end Stack
 
@@ -259,6 +259,27 @@ theorem Vertex.unpad_clean (v : Vertex (List α)) (hv : v.Aligned)
     simp only [Vertex.unpad, Vertex.map] at *
     rw [hk]
     simp only [Vertex.Aligned] at hv
+    rw [List.take_of_length_le (Nat.le_refl _), List.take_of_length_le (by omega), List.take_of_length_le (by omega)]
+
+/-- an edge whose last row is a real message (sent: `seq_out ≠ -1`, even if never received) is unchanged by `unpad` -/
+theorem Edge.unpad_clean (e : Edge (List α)) (he : e.Aligned)
+    (hlast : ∀ r, (List.zip e.seqOut (List.zip e.seqIn e.tsRecv)).getLast? = some r → isPadRow r = false) : e.unpad = e := by
+  have hk : keepLen e.seqOut e.seqIn e.tsRecv = e.seqOut.length := by
+    unfold keepLen
+    generalize hz : List.zip e.seqOut (List.zip e.seqIn e.tsRecv) = z at hlast
+    have hzl : z.length = e.seqOut.length := by rw [← hz]; simp [List.length_zip, he.1, he.2]
+    rw [← hzl]
+    cases hr : z.reverse with
+    | nil => simp [List.reverse_eq_nil_iff.mp hr]
+    | cons r t =>
+      have : z.getLast? = some r := by rw [List.getLast?_eq_head?_reverse, hr]; rfl
+      rw [List.dropWhile_cons, hlast r this]
+      simp [← hr]
+  cases e with
+  | mk a b c =>
+    simp only [Edge.unpad, Edge.map] at *
+    rw [hk]
+    simp only [Edge.Aligned] at he
     rw [List.take_of_length_le (Nat.le_refl _), List.take_of_length_le (by omega), List.take_of_length_le (by omega)]
 
 end Unpad
@@ -417,6 +438,27 @@ theorem unpad_stack_get (gs : List (Graph κ (List α))) (G : Graph κ (List (Li
   · obtain ⟨n, hn⟩ := hE k hk
     simp only [Graph.unpad, hn]
     exact Edge.unpad_pad _ (hal.2 k hk) n
+
+/-- **an episode extracted from a stack equals the original episode**: for every vertex / edge of graph `i` that does not itself
+end in an all-`-1` row, dropping the trailing padding rows of the extracted episode gives back exactly the original columns. -/
+theorem stack_get_exact (gs : List (Graph κ (List α))) (G : Graph κ (List (List α))) (hG : stack gs = some G)
+    (hs : SameKeys gs) (ha : ∀ g ∈ gs, g.Aligned) (i : Nat) (hi : i < gs.length) (hv : gs[i].vkeys ≠ []) :
+    ∃ g, getEp G i = some g ∧ g.vkeys = gs[i].vkeys ∧ g.ekeys = gs[i].ekeys ∧
+      (∀ k ∈ gs[i].vkeys,
+        (∀ r, (List.zip (gs[i].v k).seq (List.zip (gs[i].v k).tsStart (gs[i].v k).tsEnd)).getLast? = some r → isPadRow r = false) →
+        (g.v k).unpad = gs[i].v k) ∧
+      (∀ k ∈ gs[i].ekeys,
+        (∀ r, (List.zip (gs[i].e k).seqOut (List.zip (gs[i].e k).seqIn (gs[i].e k).tsRecv)).getLast? = some r → isPadRow r = false) →
+        (g.e k).unpad = gs[i].e k) := by
+  obtain ⟨g, hg, hvk, hek, hV, hE⟩ := stack_get gs G hG hs ha i hi hv
+  have hal := ha _ (List.getElem_mem hi)
+  refine ⟨g, hg, hvk, hek, fun k hk hc => ?_, fun k hk hc => ?_⟩
+  · obtain ⟨n, hn⟩ := hV k hk
+    rw [hn, Vertex.unpad_pad _ (hal.1 k hk) n]
+    exact Vertex.unpad_clean _ (hal.1 k hk) hc
+  · obtain ⟨n, hn⟩ := hE k hk
+    rw [hn, Edge.unpad_pad _ (hal.2 k hk) n]
+    exact Edge.unpad_clean _ (hal.2 k hk) hc
 
 end Main
 
@@ -807,6 +849,17 @@ theorem gfilter_shadow_name_witness :
 theorem rfilter_unrecorded_name :
     (rfilter (⟨[0], fun _ => ⟨(), (), ()⟩, fun _ => [], fun _ => [], fun _ => ⟨(), (), (), (), ()⟩⟩ : Record Nat Unit)
       ⟨[0, 1], fun _ => []⟩ false).isNone = true := by
+  decide
+
+/-- `Graph.Closed` and a successful record filter are satisfiable -/
+example : (⟨[0, 1], fun _ => ⟨(), (), ()⟩, [(0, 1)], fun _ => ⟨(), (), ()⟩⟩ : Graph Nat Unit).Closed := by
+  intro x hx
+  simp only [List.mem_singleton] at hx
+  subst hx
+  simp
+
+example : (rfilter (⟨[0, 1], fun _ => ⟨(), (), ()⟩, fun n => if n = 1 then [0] else [], fun n => if n = 1 then [0] else [],
+      fun _ => ⟨(), (), (), (), ()⟩⟩ : Record Nat Unit) ⟨[1], fun _ => [0]⟩ true).isSome = true := by
   decide
 
 end Witness
